@@ -464,7 +464,7 @@ def _cli_total(job):
         ws.write(w, 'patches/q.patch', b'')
         ws.write(w, 'series', series)
         # all verbosity levels: the failure hints (diagnostics.rs) run only when the push is not quiet
-        verb = ([], ['-q'], ['-v'], ['-v', '-v'])[(len(patch) // 2 + len(series)) % 4]
+        verb = ([], ['-q'], ['-v'], ['-v', '-v'], ['-A', 'multiapply'], ['-A', 'multiapply', '-q', '--mmap'])[(len(patch) // 2 + len(series)) % 6]
         rc, so, se = ws.push(w, ['-a', '--threads', '1' if len(patch) % 2 else '2'] + verb, timeout=20, retry_ok=True)
         return rc, se
     finally:
